@@ -126,7 +126,9 @@ def h_ja(d, shape, focus, n, ann, suffix):
             cnt[0] += 1
             c = _annotate(d, sym_str(node.cat), 'ann%d' % cnt[0], ann, node.cat)
             if node.is_leaf:
-                if suffix:
+                if suffix == 'args':       # the bank's predicate-argument suffix with unfilled slots: _I1(I2,_,_)
+                    c = c + '_' + d.string('suf%d' % cnt[0], 1, PLAIN) + '(' + d.string('sub%d' % cnt[0], 1, PLAIN) + ',_,_)'
+                elif suffix:
                     c = c + '_' + d.string('suf%d' % cnt[0], 1, PLAIN)
                 w = normalize(node.word)
                 return sjoin('', ['{', c, ' ', w, '/', w, '/', '名詞-一般', '/', '_', '}'])
@@ -166,7 +168,7 @@ def obligations(tier):
                 yield Obligation('C20.ptb[%s,leaf=%d,word=%r]' % (shape_name(s), i, br), 'h_ptb', dict(shape=s, focus=[i], n=1, fixed=br), cost=1)
             if nl <= 2 or not q:
                 yield Obligation('C20.ptb-prefix[%s,leaf=%d]' % (shape_name(s), i), 'h_ptb_prefix', dict(shape=s, focus=[i], n=1), cost=8)
-        for ann, suffix in ((1, False), (2, True), (0, True), ('atoms', False)):
+        for ann, suffix in ((1, False), (2, True), (0, True), ('atoms', False), (0, 'args')):
             if q and nl > 2 and ann in (2, 'atoms'):
                 continue
             yield Obligation('C20.ja-annotated[%s,ann=%s,suffix=%s]' % (shape_name(s), ann, suffix), 'h_ja', dict(shape=s, focus=[0], n=1, ann=ann, suffix=suffix), cost=6)
